@@ -87,6 +87,12 @@ func init() {
 			st.addPC(c)
 			return nil, true
 		}
+		if st.pos < len(st.prefix) {
+			// still replaying: the decisions ahead were found feasible under this assumption
+			st.addPC(c)
+			st.model = nil
+			return nil, true
+		}
 		r, m := st.query(c)
 		if r == Unsat {
 			st.abort(abInfeasible, "assume infeasible")
@@ -151,6 +157,13 @@ func init() {
 		}
 		st.block(th, quiet)
 		return nil, false
+	}
+	h["vThread"] = func(st *State, th *Thread, a []Value, _ ssa.Instruction) (Value, bool) {
+		th.label = st.goString(a[0], "thread name")
+		return nil, true
+	}
+	h["vThreadDone"] = func(st *State, th *Thread, a []Value, _ ssa.Instruction) (Value, bool) {
+		return nil, true
 	}
 	h["vConcurrent"] = func(st *State, th *Thread, a []Value, _ ssa.Instruction) (Value, bool) {
 		on := tw(a[0]).IsTrue()
